@@ -23,7 +23,7 @@ open H2V H2V.Model H2V.Model.Conn
   | zero => simp [Streams.pollComplete]
   | succ n ih => unfold Streams.pollComplete; view_auto
 
-@[simp] theorem view_pollSendPendingRefusal (fuel : Nat) (s : Streams) (w : Writer) (io : Tio) (tag : String) :
+@[simp] theorem view_pollSendPendingRefusal' (fuel : Nat) (s : Streams) (w : Writer) (io : Tio) (tag : String) :
     view (Streams.pollSendPendingRefusal fuel s w io tag).1 = view s := by
   induction fuel generalizing s w io with
   | zero => simp [Streams.pollSendPendingRefusal]
@@ -40,18 +40,23 @@ open H2V H2V.Model H2V.Model.Conn
 @[simp] theorem view_maybeCancel (s : Streams) (id : Nat) : view (s.maybeCancel id) = view s := by
   unfold Streams.maybeCancel; view_auto
 
-/-- the `fold` over the pending push promises in `drop_stream_ref` -/
+/-- a `fold` whose step keeps the view keeps the view -/
+theorem view_foldl (l : List Nat) (f : Streams → Nat → Streams) (hf : ∀ s a, view (f s a) = view s) (s : Streams) :
+    view (l.foldl f s) = view s := by
+  induction l generalizing s with
+  | nil => rfl
+  | cons a l ih => rw [List.foldl_cons, ih, hf]
+
+/-- the `fold` over the pending push promises in `drop_stream_ref` (the shape it had before the model
+    change of the afternoon; kept for reference) -/
 theorem view_dropPromises (l : List Nat) (s : Streams) :
     view (l.foldl (fun s promise =>
         let s := s.modStream promise fun st => { st with isPendingAccept := false }
-        (s.transition promise fun s => (s.maybeCancel promise, ())).1) s) = view s := by
-  induction l generalizing s with
-  | nil => rfl
-  | cons a l ih =>
-    rw [List.foldl_cons, ih]
+        (s.transition promise fun s => (s.maybeCancel promise, ())).1) s) = view s :=
+  view_foldl l _ (fun s a => by
     dsimp only
     rw [view_transition _ _ _ (fun s => by simp)]
-    simp
+    simp) s
 
 @[simp] theorem view_dropStreamRef (s : Streams) (id : Nat) : view (s.dropStreamRef id) = view s := by
   unfold Streams.dropStreamRef
@@ -60,7 +65,11 @@ theorem view_dropPromises (l : List Nat) (s : Streams) :
   · view_auto
   · intro s
     split
-    · simp only [view_dropPromises]; simp
+    · rw [view_foldl]
+      · simp
+      · intro s a
+        rw [view_transition _ _ _ (fun s => by dsimp only; split <;> simp)]
+        simp
     · simp
 
 @[simp] theorem view_sendRequest (s : Streams) (isHead : Bool) (fields : List Hpack.Field) (eos : Bool) (pending : Option Nat) :
